@@ -134,7 +134,9 @@ CHECKS['C02'] = dict(
     text='Lean theorem walk_accepts_generated (with walk_accepts_flat / walk_accepts_nested): for every map skeleton satisfying the decidable '
          'hypotheses WFMap and Unambiguous, and every conformant derivation (loop instance = first segment once, then each later child in '
          'order within its limits, required ones at least once, transparent wrapper loops), running the walker model from the state after GS '
-         'returns for every segment exactly the intended node with no error and no pending requirement, counters within limits. The '
+         'returns for every segment exactly the intended node with no error and no pending requirement, counters within limits; '
+         'walk_accepts_multi / walk_accepts_multi_sets extend it to any number of groups per interchange (each GS pinned as x12n_document does) '
+         'and sets per group. The '
          'hypotheses are kernel-decided (decide +kernel) per indexed map on the regenerated map terms; maps that violate them are listed as '
          'known findings. Counter theorems (NodeCounter = count per path with subtree reset). Tied to /repo by the walker differential (real '
          'walk_tree driven as x12n_document drives it vs the model, per segment, on generated documents and structural mutants of every '
@@ -149,11 +151,11 @@ CHECKS['C03'] = dict(
          'wrong class 6, bad date 8, bad time 9, missing required 1, not-used filled 10; composite 2/5/3), derived from C15 elemErrors_spec: '
          'the reported codes are exactly the spec set of the faulty value; syntax-note kinds from C14 (one error, code 10 for E else 2, at the '
          'note\'s first position); walker: unknown_segment_not_found / unknown_segment_isolated proved, local step lemmas for max-use, loop '
-         'repeat and mandatory-missing; the run-level statements for those three are kept as _full defs (not proved). Tied to /repo by the '
+         'repeat and mandatory-missing and the run-level theorems max_use_exceeded_reported, loop_repeat_reported (needs the decidable sfList; the unrestricted form is proved false on a witness) and mandatory_missing_reported (trigger points as the model has them; the unrestricted form is proved false on the known-finding corner). Tied to /repo by the '
          'fault catalogue applied at sampled positions of generated (multi-set) documents: verdict False, error with the matching code at '
          'the injected segment/element position in the error tree and in AK3/AK4 (IK3/IK4), reported set == implied set when the real '
          'walker matches all other segments as before, other sets stay accepted.',
-    note=COMMON_NOTE + ' PARTIAL: too-many-elements and the error-tree attachment are decided on the real code only; three structural kinds have local lemmas only.',
+    note=COMMON_NOTE + ' PARTIAL: too-many-elements and the error-tree attachment are decided on the real code only.',
     technique='Lean 4 proof (detection + isolation lemmas from C15/C14/walker) + fault-injection oracle on the real pipeline',
     design='DESIGN.md §3 C03')
 CHECKS['C05'] = dict(
